@@ -2,7 +2,7 @@
    and the property itself as a monitor on the observations ("a backend / handler saw the request => the credentials
    demanded by that backend's route were presented").  Reason codes: 0 agree; 5x property monitor; 9x outside the
    modelled fragment; others: model and implementation differ. *)
-From FRP Require Export Corr.Common Model.HttpAuth gen.GenRoutes.
+From FRP Require Export Corr.Common Model.HttpAuth Model.HttpAuthGroup gen.GenRoutes.
 Open Scope Z_scope.
 
 Definition mk_hv (scheme : bytes) (space : bool) (dec : option bytes) : ha_hdr :=
@@ -24,6 +24,9 @@ Inductive case :=
 | CServeH2 (tbl : list ha_route) (up rq : ha_req) (status backend : Z)
 (* tcpmux.HTTPConnectTCPMuxer: cls 0 closed without answer | 404 | 407 | 200 (handed over); ok200 = a 200 was seen first; listener reached (-1 none) *)
 | CMux (tbl : list ha_route) (passthrough : bool) (rq : ha_req) (cls : Z) (ok200 : bool) (backend : Z)
+(* group.TCPMuxGroupCtl over the real muxer: the joins / leaves with the observed results of Listen, then one CONNECT:
+   cls / ok200 as for CMux, member = id of the member whose Accept received the connection (-1 none) *)
+| CGrp (ops : list ha_gop) (results : list Z) (rq : ha_req) (cls : Z) (ok200 : bool) (member : Z)
 (* HTTPAuthMiddleware around a marker handler *)
 | CMw (c : ha_cfg) (rq : ha_req) (status : Z) (reached : bool)
 (* http_proxy plugin: status, target reached.  how = 0: the request is the first of its connection, written in one piece;
@@ -62,6 +65,13 @@ Definition C07_holds (c : case) : bool :=
       if backend <? 0 then true
       else match route_by_id tbl backend with
            | Some l => creds_ok (ha_mux_creds l) (ha_mux_presented rq)
+           | None => false
+           end
+  | CGrp ops _ rq _ _ member =>
+      if member <? 0 then true
+      else match find (fun m => gm_id m =? member)
+                      (flat_map (fun o => match o with GJoin m => [m] | GLeave _ => [] end) ops) with
+           | Some m => creds_ok (ha_member_creds m) (ha_mux_presented rq)
            | None => false
            end
   | CMw c rq _ reached | CSf _ c rq _ reached =>
@@ -118,6 +128,19 @@ Definition check_case (c : case) : Z :=
            | MAuthFailed s => if (cls =? 407) && (backend =? -1) && Bool.eqb ok200 s then 0 else 13
            | MForward l s => if negb (backend =? rt_id l) then 14 else if (cls =? 200) && Bool.eqb ok200 s then 0 else 15
            end
+  | CGrp ops results rq cls ok200 member =>
+      if negb (in_fragment rq) then 90
+      else
+        let '(st, rs) := ha_grp_run [] ops in
+        if negb (forallb (fun p => fst p =? snd p) (combine rs results) && (Z.of_nat (length rs) =? Z.of_nat (length results))) then 81
+        else match ha_mux_handle (ha_tbl_get (ha_grp_table st)) ha_canon_or_self false rq with
+             | MClose => if (cls =? 0) && (member =? -1) && negb ok200 then 0 else 82
+             | MNotFound => if (cls =? 404) && (member =? -1) && negb ok200 then 0 else 83
+             | MAuthFailed s => if (cls =? 407) && (member =? -1) && Bool.eqb ok200 s then 0 else 84
+             | MForward _ s =>
+                 if negb ((cls =? 200) && Bool.eqb ok200 s) then 85
+                 else match ha_grp_deliver ha_canon_or_self st false rq member with Some _ => 0 | None => 86 end
+             end
   | CMw c rq status reached =>
       match ha_middleware c rq with
       | MwNext => if reached && (status =? 200) then 0 else 21
@@ -196,5 +219,19 @@ Definition is_web_unauth (c : case) : bool :=
 Definition is_web_public (c : case) : bool :=
   match c with
   | CWeb which flags cf rq _ => match ha_web_serve (flag_on flags) (web_table which) cf rq with WServed _ false => true | _ => false end
+  | _ => false
+  end.
+
+Definition mk_gm (id : Z) (grp key dom byu u p : bytes) : ha_gmember :=
+  {| gm_id := id; gm_group := grp; gm_key := key; gm_domain := dom; gm_by_user := byu; gm_user := u; gm_pass := p |}.
+Definition is_grp_refused_join (c : case) : bool :=
+  match c with CGrp ops _ _ _ _ _ => existsb (fun r => r =? 1) (snd (ha_grp_run [] ops)) | _ => false end.
+Definition is_grp_protected_delivery (c : case) : bool :=
+  match c with
+  | CGrp ops _ rq _ _ member =>
+      match ha_grp_deliver ha_canon_or_self (fst (ha_grp_run [] ops)) false rq member with
+      | Some m => match ha_member_creds m with Some _ => true | None => false end
+      | None => false
+      end
   | _ => false
   end.
